@@ -2,6 +2,7 @@ import groups_vm
 import groups_gen
 import groups_parse
 import groups_macro
+import groups_scan
 
 
 def all_groups():
@@ -10,4 +11,9 @@ def all_groups():
     gs += groups_gen.groups()
     gs += groups_parse.groups()
     gs += groups_macro.groups()
+    gs += groups_scan.groups()
+    # C18 (sequential half): the frame obligations of EVERY function under contract - see framework.attributed
+    for g in gs:
+        if 'C18' not in g.props and not g.name.endswith('_layout'):
+            g.props = list(g.props) + ['C18']
     return gs
